@@ -7,6 +7,8 @@ pub mod inp;
 pub mod util;
 #[path = "../../avk/src/types.rs"]
 pub mod types;
+#[path = "../../avk/src/hists.rs"]
+pub mod hists;
 pub mod c19;
 
 pub fn registry() -> Vec<(&'static str, &'static [(&'static str, fn(&mut inp::VecInp))])> {
